@@ -34,6 +34,10 @@ def c05(proj, rep, tier):
     rep.floor('F5 clamped square roots in the closed forms', n, 5)
     n = kdefects.ar2(proj, rep, None)
     rep.floor('AR2 multipartite reshapes with role-named sizes', n, 12)
+    n = kdefects.eo1(proj, rep, ENTANGLE)
+    rep.floor('EO1 partial-trace einsums in the entangle criteria', n, 1)
+    n = kdefects.cs1(proj, rep, None)
+    rep.floor('CS1 (function, argument pair) groups with several call sites', n, 20)
     nfun, nmemo = kdefects.mc1(proj, rep, ENTANGLE)
     rep.floor('MC1 functions of the entangle modules scanned for module-level memos', nfun, 60)
 
@@ -87,6 +91,10 @@ def c07(proj, rep, tier):
     rep.floor('H1 mutators of a memoised source (CliffordCircuit recorders)', n, 1)
     n = kdefects.md1(proj, rep, ['numqi.sim.clifford', 'numqi.gate._pauli', 'numqi.random._spf2'] if tier == 'quick' else sorted(proj.modules))
     rep.floor('MD1 functions with default arguments (Clifford / Pauli modules)', n, 10)
+    n = clifford.h7(proj, rep)
+    rep.floor('H7 register size from every index slot', n, 1)
+    n = clifford.h8(proj, rep)
+    rep.floor('H8 phase-convention conversions in clifford_array_to_F2', n, 2)
     n, nrec = clifford.h2(proj, rep)
     rep.floor('H2 recorder factories', nrec, 8)
     rep.floor('H2 table entries', n, 30)
@@ -161,6 +169,8 @@ def c01(proj, rep, tier):
     rep.floor('W5 Gram-matrix orthonormalisations', n, 4)
     n = numeric.f4(proj, rep, MANIFOLD)
     rep.floor('F4 hand-written softplus sites', n, 1)
+    n = kdefects.ar3(proj, rep, None)
+    rep.floor('AR3 call sites with bare-name arguments', n, 150)
     n = manifold.w6(proj, rep, ['numqi.manifold._compose.QuantumChannel.forward'])
     rep.floor('W6 batched / unbatched einsum pairs', n, 1)
     n = kdefects.k5(proj, rep, MANIFOLD if tier == 'quick' else sorted(proj.modules))
@@ -218,6 +228,8 @@ def c12(proj, rep, tier):
     backend.b1(proj, rep, ['numqi.channel._internal', 'numqi.utils'], expect_match=B1_CHANNEL)
     n = numeric.f1(proj, rep, ['numqi.utils'])
     rep.floor('F1 log sites of the entropy / relative-entropy formulas', n, 10)
+    n = kdefects.ro1(proj, rep, ['numqi.channel._internal', 'numqi.utils'])
+    rep.floor('RO1 reshape / ravel calls in channel + utils', n, 30)
     n = kdefects.al2(proj, rep, ['numqi.channel._internal'])
     rep.floor('AL2 probe calls of user channel callables', n, 2)
     n = hermitian.hm1(proj, rep, ['numqi.utils', 'numqi.channel._internal'])
@@ -258,6 +270,9 @@ def c16(proj, rep, tier):
     rep.floor('G4 linearity / with_I-order obligations', n, 3)
     n = gellmann.g6(proj, rep)
     rep.floor('G6 Hermiticity / normalisation of the basis arms', n, 4)
+    n = kdefects.nz2(proj, rep, ['numqi.gellmann'] if tier == 'quick' else sorted(proj.modules))
+    n = kdefects.dt3(proj, rep, ['numqi.gellmann'] if tier == 'quick' else sorted(proj.modules))
+    rep.floor('DT3 torch.sqrt normalisers built from arange', n, 1)
     kdefects.kr1(proj, rep, ['numqi.gellmann'] if tier == 'quick' else sorted(proj.modules))
     numeric.f2(proj, rep, ['numqi.gellmann'])
     nsite, ntyped = gellmann.g2(proj, rep, None)
@@ -286,6 +301,9 @@ def c03(proj, rep, tier):
     rep.floor('H5 query methods of Circuit', n, 5)
     n = adjoint.ip1(proj, rep)
     rep.floor('IP1 factor order of inner_product_psi0_O_psi1', n, 1)
+    n = kdefects.er1(proj, rep, ['numqi.sim.state.apply_gate', 'numqi.sim.dm.apply_gate', 'numqi.sim.dm.operator_expectation', 'numqi.sim.state.apply_gate_grad',
+                                 'numqi.sim.state.apply_control_n_gate'])
+    rep.floor('ER1 returns of the index-relabelling primitives', n, 4)
     backend.b1(proj, rep, ['numqi.gate._internal'], expect_match=B1_GATE)
     n = ownership.o2(proj, rep)
     rep.floor('O2 cached functions examined', n, 20)
@@ -309,6 +327,7 @@ def c04(proj, rep, tier):
     rep.floor('A6 nonzero-index-table uses in the sqrtm backward', n, 1)
     n = adjoint.a7(proj, rep)
     rep.floor('A7 gradient buffers cleared before backward', n, 1)
+    adjoint.a9(proj, rep)
     n = adjoint.a8(proj, rep, ['numqi.utils'])
     rep.floor('A8 custom-backward logm dispatch sites', n, 2)
     backend.b1(proj, rep, ['numqi.gate._internal'], expect_match=B1_GATE)
@@ -327,6 +346,10 @@ def c19(proj, rep, tier):
     rep.floor('Q5 count loops of the asymmetric error set', n, 2)
     n = circuit.q6(proj, rep)
     rep.floor('Q6 weight-enumerator normalisations', n, 2)
+    n = circuit.q7(proj, rep)
+    rep.floor('Q7 position-to-label translations in hf_split_element', n, 2)
+    n = kdefects.it1(proj, rep, ['numqi.qec._internal', 'numqi.qec._qecc'] if tier == 'quick' else sorted(proj.modules))
+    rep.floor('IT1 named iterators in the qec modules', n, 2)
     n = kdefects.al1(proj, rep, ['numqi.qec._internal', 'numqi.qec._qecc'] if tier == 'quick' else sorted(proj.modules))
     rep.floor('AL1 loop-local containers that are modified in place (qec)', n, 2)
     n = circuit.q3(proj, rep)
